@@ -78,7 +78,8 @@ def workdir():
 
 
 def make(case):
-    m = snxgen.model(case['nstn'], case['soln'], case['vel'], case.get('blockdiag', False), case.get('order', 'station'))
+    m = snxgen.model(case['nstn'], case['soln'], case['vel'], case.get('blockdiag', False), case.get('order', 'station'),
+                     dup=case.get('dup', 0), cancel=bool(case.get('cancel')))
     d = workdir()
     path = os.path.join(d, 'in.snx')
     snxgen.write(path, m, case['tri'], extra=bool(case.get('extra')))
@@ -253,6 +254,14 @@ def gen_remove(tier, seed):
         subsets = [list(s) for r in range(0, cfg['nstn']) for s in itertools.combinations(names, r)]
         for i in range(0, len(subsets), 64):
             yield dict(cfg, subsets=subsets[i:i + 64])
+    # sites with two solutions (a discontinuity: solution numbers n and n + 1 under one site code): one SITE/ID line, two
+    # SOLUTION/EPOCHS lines and two parameter groups per such site
+    for cfg in configs(tier):
+        if cfg['nstn'] in (2, 3, 4):
+            names = snxgen.codes(cfg['nstn'])
+            subsets = [list(s) for r in range(0, cfg['nstn']) for s in itertools.combinations(names, r)]
+            for dup in (1, 2):
+                yield dict(cfg, subsets=subsets[:64], dup=dup, soln=1)
     # other legal parameter orders of the estimate / matrix blocks (all positions then all velocities, velocities first,
     # X-VX pairs, stations in reverse order)
     for cfg in configs(tier):
@@ -270,7 +279,7 @@ def ev_remove(case, rec):
         co = {'nstn': case['nstn'], 'vel': case['vel'], 'tri': case['tri'], 'removed': len(sub)}
         arg = list(sub)
         p = run_op(rec, 'remove', path, arg, DEFAULT_CLOCK, one, co)
-        rec.nontriv((case['nstn'], case['soln'], case['vel'], case['tri'], tuple(sub), case.get('order')))
+        rec.nontriv((case['nstn'], case['soln'], case['vel'], case['tri'], tuple(sub), case.get('order'), case.get('dup')))
         if arg != list(sub):
             rec.fail('remove_stns_sinex modified the caller\'s list of stations', site='gnss:remove:argument', observed=arg, expected=list(sub),
                      case=one, coords=co)
@@ -307,6 +316,11 @@ def gen_other(tier, seed):
         yield dict(cfg, op='velocity') if cfg['vel'] else dict(cfg, op='zeros', blockdiag=True)
         yield dict(cfg, op='zeros', blockdiag=False)
         yield dict(cfg, op='readers')
+        if cfg['nstn'] in (2, 3, 5):
+            # covariance lines whose values cancel exactly are not all-zero lines; sites with two solutions
+            yield dict(cfg, op='zeros', blockdiag=False, cancel=True)
+            yield dict(cfg, op='zeros', blockdiag=True, cancel=True)
+            yield dict(cfg, op='velocity' if cfg['vel'] else 'zeros', dup=1, soln=1, blockdiag=not cfg['vel'], cancel=True)
         if cfg['nstn'] <= 7:
             for order in (snxgen.ORDERS[1:] if cfg['vel'] else ['reversed']):
                 yield dict(cfg, op='velocity' if cfg['vel'] else 'zeros', order=order, blockdiag=not cfg['vel'])
@@ -316,7 +330,7 @@ def ev_other(case, rec):
     m, path, p_in = make(case)
     op = case['op']
     co = {'nstn': case['nstn'], 'vel': case['vel'], 'tri': case['tri'], 'op': op}
-    rec.nontriv((op, case['nstn'], case['soln'], case['vel'], case['tri'], case.get('blockdiag'), case.get('order')))
+    rec.nontriv((op, case['nstn'], case['soln'], case['vel'], case['tri'], case.get('blockdiag'), case.get('order'), case.get('dup'), case.get('cancel')))
     if op == 'velocity':
         p = run_op(rec, 'velocity', path, None, DEFAULT_CLOCK, case, co)
         if p is not None:
